@@ -320,3 +320,83 @@ Definition ret_shares_arg (F : nat -> list (list Z) -> list Z) (p : prog) (nargs
   map (fun r => map (fun a => Nat.eqb r a) (seq 0 nargs)) (s_rets s).
 
 Definition F0 : nat -> list (list Z) -> list Z := fun f cs => [Z.of_nat f].
+
+(* ---------- call histories: the caller allocates, writes to what it knows, and calls ---------- *)
+Section Hist.
+Variable F : nat -> list (list Z) -> list Z.
+
+Record world := mk_world { w_heap : heap; w_slots : list loc; w_dead : list loc; w_known : list loc }.
+
+Inductive event :=
+| ECall (p : prog) (args : list loc)     (* a library call on objects the caller knows *)
+| EWrite (l : loc) (v : list Z)          (* the caller overwrites an object it knows *)
+| EAlloc (v : list Z).                   (* the caller creates an object *)
+
+Definition knows (w : world) (l : loc) : bool := existsb (Nat.eqb l) (w_known w).
+
+(* result: new world and, for a call, the contents of the returned objects at return time *)
+Definition do_event (w : world) (e : event) : world * option (list (list Z)) :=
+  match e with
+  | ECall p args =>
+      if forallb (knows w) args then
+        let s := run F p args (w_heap w) (w_slots w) (w_dead w) in
+        (mk_world (s_heap s) (s_slots s) (s_dead s) (w_known w ++ s_rets s),
+         Some (map (content (s_heap s)) (s_rets s)))
+      else (w, None)
+  | EWrite l v =>
+      if knows w l then (mk_world (set_nth l v (w_heap w)) (w_slots w) (w_dead w) (w_known w), None)
+      else (w, None)
+  | EAlloc v => (mk_world (w_heap w ++ [v]) (w_slots w) (w_dead w) (w_known w ++ [length (w_heap w)]), None)
+  end.
+
+Fixpoint run_hist (w : world) (es : list event) : list (list (list Z)) :=
+  match es with
+  | [] => []
+  | e :: t =>
+      let '(w', out) := do_event w e in
+      match out with Some o => o :: run_hist w' t | None => run_hist w' t end
+  end.
+
+Fixpoint final_world (w : world) (es : list event) : world :=
+  match es with [] => w | e :: t => final_world (fst (do_event w e)) t end.
+
+(* a perturbed history: [Extra l v] is a caller write that happens only in the second run *)
+Inductive pevent := Both (e : event) | Extra (l : loc) (v : list Z).
+
+Definition left_run (pes : list pevent) : list event :=
+  flat_map (fun pe => match pe with Both e => [e] | Extra _ _ => [] end) pes.
+Definition right_run (pes : list pevent) : list event :=
+  map (fun pe => match pe with Both e => e | Extra l v => EWrite l v end) pes.
+
+(* objects dirtied by an extra write are not handed to the library afterwards *)
+Fixpoint clean (D : list loc) (pes : list pevent) : bool :=
+  match pes with
+  | [] => true
+  | Both (ECall _ args) :: t => forallb (fun a => negb (existsb (Nat.eqb a) D)) args && clean D t
+  | Both _ :: t => clean D t
+  | Extra l _ :: t => clean (l :: D) t
+  end.
+
+Definition calls_disciplined (nslots : nat) (pes : list pevent) : bool :=
+  forallb (fun pe => match pe with Both (ECall p args) => disciplined (length args) nslots p | _ => true end) pes.
+Definition events_disciplined (nslots : nat) (es : list event) : bool :=
+  forallb (fun e => match e with ECall p args => disciplined (length args) nslots p | _ => true end) es.
+
+(* every call in the history leaves the contents of everything the caller knew untouched *)
+Fixpoint frame_holds (w : world) (es : list event) : Prop :=
+  match es with
+  | [] => True
+  | e :: t =>
+      let w' := fst (do_event w e) in
+      match e with
+      | ECall _ _ => forall l, In l (w_known w) -> content (w_heap w') l = content (w_heap w) l
+      | _ => True
+      end /\ frame_holds w' t
+  end.
+
+(* well-formed world: live references point into the heap; nothing the caller knows is live state *)
+Definition Inv (nslots : nat) (w : world) : Prop :=
+  length (w_slots w) = nslots /\
+  (forall l, In l (w_slots w) -> l < length (w_heap w)) /\
+  (forall l, In l (w_known w) -> l < length (w_heap w) /\ ~ In l (w_slots w)).
+End Hist.
